@@ -15,6 +15,9 @@ type Clause struct {
 	Props []string
 	Sig   string
 	Msg   string
+	// NoCut: the model already describes the state the clause complains about, so a history may go on after it (used for
+	// a listed known finding, which is counted and excluded instead of ending every history that meets it)
+	NoCut bool
 }
 
 func clause(props []string, sig, f string, a ...interface{}) Clause {
